@@ -3,7 +3,7 @@ import KcpVerif.Lemmas.KcpLive
 import KcpVerif.Lemmas.KcpProbe
 /-! C03 — a stalled reader throttles the sender and transfer resumes afterwards. -/
 namespace KcpVerif.Props
-open KcpVerif KcpVerif.Gen KcpVerif.Kcp
+open KcpVerif KcpVerif.Gen KcpVerif.Kcp KcpVerif.Live
 
 /-- the probe back-off stays between `IKCP_PROBE_INIT` and `IKCP_PROBE_LIMIT` -/
 theorem C03_nextProbeWait_bounds (w : U32) (hlim : w ≤ u32 IKCP_PROBE_LIMIT) :
